@@ -5,8 +5,21 @@ from ast import *
 from oneliner.config import Configs
 
 
+_used_ids: set[str] = set()
+
+
+def reset_unique_id():
+    """Forget the ids handed out so far (called at the start of each conversion)"""
+    _used_ids.clear()
+
+
 def unique_id() -> str:
-    return "".join(random.choices("abcdefghijklmnopqrstuvwxyz", k=10))
+    while True:
+        uid = "".join(random.choices("abcdefghijklmnopqrstuvwxyz", k=10))
+        if uid not in _used_ids:
+            # never hand out the same id twice in one conversion
+            _used_ids.add(uid)
+            return uid
 
 
 def convert_slice(_slice: Slice) -> Call:
